@@ -64,6 +64,8 @@ def classify(c):
     if c["fn"] == "origin":
         if "lands on" in why:
             return "origin:rel32-lands-elsewhere"
+        if why.startswith("far form is MOVABS"):
+            return "origin:far-form-jumps-through-memory"
         return "origin:" + why.split(" ")[0]
     return c["fn"] + ":" + (why.split(" ")[0] if why else "?")
 
@@ -139,8 +141,12 @@ def run(replay=None):
         done = [r for r in lrows if r.get("kind") in ("live-iface", "live-stub")]
         if about and len(about) > len(done):
             a = about[-1]
-            ck.impl_violation("installed-iface-stub-crashes:" + a["mode"], "the process dies (exit %d) on the call through a mocked interface variable whose stub lives in the %s" % (
-                rc, "in-text reserve (new mappings refused)" if a["mode"] == "reserve" else "fresh mapping"), {"about": a, "tail": lout[-600:]})
+            if a["mode"] == "far-origin-jump":
+                ck.impl_violation("installed-far-origin-jump-crashes", "the process dies (exit %d) on the call through the FAR form of the trampoline return placed in a fresh mapping (destination: a code address of the text)" % rc,
+                                  {"about": a, "tail": lout[-600:]})
+            else:
+                ck.impl_violation("installed-iface-stub-crashes:" + a["mode"], "the process dies (exit %d) on the call through a mocked interface variable whose stub lives in the %s" % (
+                    rc, "in-text reserve (new mappings refused)" if a["mode"] == "reserve" else "fresh mapping"), {"about": a, "tail": lout[-600:]})
         else:
             ck.obligation_broken("harness run c15 live (exit %d)" % rc, lout[-1500:])
     for r in lres:
